@@ -4,7 +4,7 @@ import zlib
 
 import numpy as np
 
-LETTERS = ["a", "é", "中", "\U0001D4B3", "Z", "́"]
+LETTERS = ["a", "\u2126", "é", "中", "\U0001D4B3", "\u212b", "Z", "́"]     # U+2126 / U+212B are not NFC-stable
 
 
 def conc(chars, rot):
@@ -83,7 +83,7 @@ def replay_path_batch(case):
     return {"n": n, "keys": keys, "fails": fails, "validated": len(items)}
 
 
-POOL = ["'", "/", " ", "a", "b", "é", "中", "\U0001F600", "́", "\\", "\"", "\t", ".", "''", "/'", "ß"]
+POOL = ["'", "/", " ", "a", "b", "é", "e\u0301", "\u2126", "\uf900", "中", "\U0001F600", "́", "\\", "\"", "\t", ".", "''", "/'", "ß"]
 
 
 def random_name_traces(seed, ntraces, per_trace):
